@@ -6,10 +6,13 @@
 EXTENDS PbfFormat, IOUtils, Json
 Lines == ndJsonDeserialize(IOEnv.REC)
 
+\* cases with a stateful filter kind are judged on the recorded verdicts, the others on the predicate of the case
+RunJudged(c, run) == IF IsStateful(c) THEN StatefulRunOK(c, run) ELSE FilteredRunOK(c, run)
 LineOK(ln) == /\ Len(ln.runs) >= 1
-              /\ \A k \in 1 .. Len(ln.runs) : FilteredRunOK(ln.case, ln.runs[k])
+              /\ \A k \in 1 .. Len(ln.runs) : RunJudged(ln.case, ln.runs[k])
 BadRun(ln) == IF Len(ln.runs) = 0 THEN <<"no run recorded">>
-              ELSE LET k == CHOOSE k \in 1 .. Len(ln.runs) : ~FilteredRunOK(ln.case, ln.runs[k]) IN FilteredRunWhy(ln.case, ln.runs[k])
+              ELSE LET k == CHOOSE k \in 1 .. Len(ln.runs) : ~RunJudged(ln.case, ln.runs[k]) IN
+                   IF IsStateful(ln.case) THEN StatefulRunWhy(ln.case, ln.runs[k]) ELSE FilteredRunWhy(ln.case, ln.runs[k])
 
 ASSUME \A i \in 1 .. Len(Lines) :
           LineOK(Lines[i]) \/ PrintT(<<"BAD", ToJson([i |-> i, why |-> BadRun(Lines[i]), kf |-> {}])>>)
